@@ -29,8 +29,8 @@ level("C14", "other",
       "survive. Proved for every real input: io.utils._factor_out_pi returns text that denotes its argument (code generation). "
       "Bounded stand-in: text round trip through the real blackbird / xir serialisers and parsers for every class of "
       "ops.__all__, daggered gates, free / measured parameter expressions, options, TDM programs. Repaired: F19 (saving "
-      "mutated the program), F43a-c (TDM arrays not serialisable, XIR target key, XIR string parameters), F49 (_factor_out_pi "
-      "truncation). Open findings: F20 (dagger never serialised), F35 (symbolic parameters do not survive the text), F43 "
+      "mutated the program), F43b-c (XIR target key, XIR string parameters), F49 (_factor_out_pi "
+      "truncation). Open findings: F43a (TDM programs cannot be saved as Blackbird text), F20 (dagger never serialised), F35 (symbolic parameters do not survive the text), F43 "
       "(Fouriergate), F44 (BipartiteGraphEmbed), F45 (Del/New), F46 (1-D arrays in Blackbird), F47 (booleans in XIR), F48 "
       "(multi-band TDM).",
       trusted=["blackbird.BlackbirdProgram and xir.Program / Statement are record stubs in the proofs (attributes stored and "
@@ -249,29 +249,33 @@ def _bb_measured(h):
     """a gate parameter that is an expression of a measured mode: the IR carries the expression, loading re-binds it to
     the measured mode of the NEW program (same mode index)"""
     bbio, par, prg, ops = h.module(BB), h.module(PAR), h.module(PRG), h.module(OPS)
-    prog = prg.Program(3, name="c14")
+    # the measured mode is written into the IR by NAME ('q<index>'): indices with one and with several digits
+    MODES = (0, 1, 9, 10, 11, 12, 21, 24)
+    m = MODES[h.eng.choose(len(MODES), "mode")]
+    tgt = 2 if m != 2 else 3
+    prog = prg.Program(25, name="c14")
     with prog.context as q:
-        ops.MeasureHomodyne(h.real("phi")) | q[1]
-        ops.Xgate(2 * q[1].par) | q[2]
+        ops.MeasureHomodyne(h.real("phi")) | q[m]
+        ops.Xgate(2 * q[m].par) | q[tgt]
     snap = snapshot_prog(prog)
     with h.stubbed(bbio, "blackbird", FakeBlackbird), h.stubbed(par, "blackbird", FakeBlackbird):
         out = h.call(bbio.to_blackbird, prog)
-        h.ensure("no-exception", out.returned)
+        h.ensure("no-exception", out.returned, bounded_shape=True)
         if not out.returned:
             return
         bb = out.value
-        h.ensure("program-unmodified", unchanged(prog, snap))
+        h.ensure("program-unmodified", unchanged(prog, snap), bounded_shape=True)
         a = bb.operations[1]["args"][0]
-        h.ensure("ir-carries-the-expression", isinstance(a, FakeRegRefTransform) and a.expr is prog.circuit[1].op.p[0])
+        h.ensure("ir-carries-the-expression", isinstance(a, FakeRegRefTransform) and a.expr is prog.circuit[1].op.p[0], bounded_shape=True)
         out2 = h.call(bbio.from_blackbird, bb)
-        h.ensure("load.no-exception", out2.returned)
+        h.ensure("load.no-exception", out2.returned, bounded_shape=True)
         if out2.returned:
             l = out2.value
             p = l.circuit[1].op.p[0]
             deps = par.par_regref_deps(p)
             h.ensure("loaded-parameter-depends-on-the-same-mode-of-the-loaded-program",
-                     len(deps) == 1 and next(iter(deps)).ind == 1 and next(iter(deps)) is l.reg_refs[1])
-            h.ensure("same-expression", str(p) == str(prog.circuit[1].op.p[0]))
+                     len(deps) == 1 and next(iter(deps)).ind == m and next(iter(deps)) is l.reg_refs[m], bounded_shape=True)
+            h.ensure("same-expression", str(p) == str(prog.circuit[1].op.p[0]), bounded_shape=True)
 
 
 @proof("C14", BB + ":to_blackbird", name="to_blackbird/dagger-representable")
